@@ -293,6 +293,7 @@ pub proof fn lemma_ext_tv(i: TA, n: &NoGood, tv: Seq<Term>)
 pub open spec fn tv_forced_ext(store: Seq<Vec<NoGood>>, base: Seq<Term>, v: Seq<Term>) -> bool {
     &&& v.len() == base.len()
     &&& forall|p: int| 0 <= p < base.len() && !und(#[trigger] base[p]) ==> v[p] == base[p]
+    &&& forall|p: int| 0 <= p < base.len() && und(#[trigger] v[p]) ==> v[p] == base[p]
     &&& forall|p: int| 0 <= p < base.len() && und(#[trigger] base[p]) && !und(v[p]) ==> forall|i: TA| ext_tv(i, base) && #[trigger] avoids_all(i, store) ==> i(p as u32) == (v[p].0 == 1)
 }
 pub open spec fn tv_no_extension(store: Seq<Vec<NoGood>>, base: Seq<Term>) -> bool { forall|i: TA| ext_tv(i, base) ==> !#[trigger] avoids_all(i, store) }
